@@ -13,6 +13,18 @@ Theorem C13_complete : forall (F : list N -> list N) (G : grp), GrpLaws G -> for
                (g_mul G key (g_base G)) ps (map (g_mul G key) ps) = true.
 Proof. exact verify_new_batch. Qed.
 
+(* special soundness of the underlying DLEQ relation: two transcripts that open the same commitments under
+   different challenges force Z = key * M.  Contrapositive: for an evaluation NOT computed with the committed
+   key, given commitments admit at most one challenge - the Fiat-Shamir hash must hit it *)
+Theorem C13_special_soundness : forall (G : grp), GrpLaws G -> forall (k : Z) (m z : bytes) (c s c' s' d : Z),
+  g_valid G m = true -> g_valid G z = true -> g_base G <> g_id G ->
+  g_add G (g_mul G s (g_base G)) (g_mul G c (g_mul G k (g_base G)))
+    = g_add G (g_mul G s' (g_base G)) (g_mul G c' (g_mul G k (g_base G))) ->
+  g_add G (g_mul G s m) (g_mul G c z) = g_add G (g_mul G s' m) (g_mul G c' z) ->
+  (d * (c' - c)) mod ell = 1 ->
+  z = g_mul G k m.
+Proof. exact dleq_special_soundness. Qed.
+
 (* the proof survives its binary form *)
 Theorem C13_proof_roundtrip : forall p : proof, 0 <= pr_c p < ell -> 0 <= pr_s p < ell ->
   proof_from_bincode (proof_to_bincode p) = inr p.
